@@ -789,4 +789,84 @@ def predict {W V : Type} [Inhabited V] (E : Env) (S : Sem W V) (m : Model) (ws :
     (inputs : List V) : List V :=
   evalFrom E S ws m 0 inputs
 
+/-! ### quantizer OBJECTS shared between slots (Python object identity) and `get_quantizers()`
+
+  A layer constructor keeps the quantizer OBJECT it is given (`self.X_quantizer_internal =
+  get_quantizer(X_quantizer)` returns an object argument unchanged), stores the same references in
+  `self.quantizers` (what `get_quantizers()` reports) and then calls `_set_trainable_parameter()`
+  IN PLACE on the trainable slots.  One object passed for several slots (kernel and bias, kernel of
+  two layers, …) is therefore switched for all of them.  A rebuilt layer has one fresh object per
+  slot, built from the slot's config.  The heap makes the aliasing explicit. -/
+
+def Kind.isQuant : Kind → Bool
+  | .quant _ => true
+  | _ => false
+
+def Kind.isTrainableQuant : Kind → Bool
+  | .quant true => true
+  | _ => false
+
+/-- `_set_trainable_parameter()` on an object of any class (classes outside the tables: no method) -/
+def setTr (E : Env) (q : QObj) : QObj :=
+  match E.findQ q.cls with
+  | some s => setTrainable s q
+  | none => q
+
+/-- heap of quantizer objects: object id ↦ current state -/
+abbrev QHeap := Nat → QObj
+
+/-- in-place mutation of object `i` -/
+def QHeap.mutate (h : QHeap) (i : Nat) (f : QObj → QObj) : QHeap :=
+  fun j => if j = i then f (h j) else h j
+
+/-- one step of the constructor body for parameter `p`: `_set_trainable_parameter()` on the object
+    the slot refers to, if the slot is a trainable quantizer slot holding an object -/
+def constructStep (E : Env) (ref : String → Option Nat) (h : QHeap) (p : Param) : QHeap :=
+  match p.kind.isTrainableQuant, ref p.name with
+  | true, some i => h.mutate i (setTr E)
+  | _, _ => h
+
+/-- the quantizer part of a layer constructor run on quantizer OBJECTS: slot `k` refers to object
+    `ref k` (none: no object in the slot), slots may share an object; the heap afterwards -/
+def constructHeap (E : Env) (spec : LSpec) (ref : String → Option Nat) (h : QHeap) : QHeap :=
+  spec.params.foldl (constructStep E ref) h
+
+/-- what slot `k` sees when it dereferences its object — used by `call`, by `get_config` and, since
+    `self.quantizers` holds the very same references, reported by `get_quantizers()` -/
+def slotValue (h : QHeap) (ref : String → Option Nat) (k : String) : QVal :=
+  match ref k with
+  | some i => .obj (h i)
+  | none => .none
+
+/-- does some trainable slot of the class refer to object `j`? -/
+def touched (spec : LSpec) (ref : String → Option Nat) (j : Nat) : Bool :=
+  spec.params.any fun p => p.kind.isTrainableQuant && ref p.name == some j
+
+/-- `layer.get_quantizers()`: the `*_quantizer_internal` objects in the order `slots` in which the
+    class lists them in `self.quantizers` (table `reportedSlots`, observed live) -/
+def reportedQuantizers (slots : List String) (L : Layer) : List (String × Arg) :=
+  slots.map fun k => (k, L.arg k)
+
+/-! ### process-level state: `set_internal_sigmoid`
+
+  quantized_sigmoid / quantized_tanh / quantized_relu(use_sigmoid) / quantized_ulaw and the
+  stochastic classes evaluate the module global `_sigmoid` AT CALL TIME.  No object of the library
+  keeps a copy of the switch: construction (`layerFromConfig`, `modelFromConfig`) has no mode
+  argument at all, and the layer semantics receives the CURRENT mode. -/
+
+inductive SigmoidMode where
+  | hard | smooth | real
+deriving DecidableEq, Repr
+
+/-- layer semantics under the process switch: one `Sem` per current mode -/
+abbrev ModeSem (W V : Type) := SigmoidMode → Sem W V
+
+/-- a route run while the switch is at `built`: the mode is not an input of the deserialiser -/
+def rebuildUnder (_built : SigmoidMode) (E : Env) (m : Model) : Except Err Model := rebuild E m
+
+/-- `model.predict` while the switch is at `now` -/
+def predictUnder {W V : Type} [Inhabited V] (E : Env) (S : ModeSem W V) (now : SigmoidMode)
+    (m : Model) (ws : Nat → W) (inputs : List V) : List V :=
+  predict E (S now) m ws inputs
+
 end QKV.LC
